@@ -23,6 +23,9 @@ type Client struct {
 	// and inbound PUBREC (for the client's own QoS 2 publishes) with PUBREL.
 	AutoAck bool
 
+	// NoDeliveryAck: deliveries (PUBLISH, PUBREL from the broker) are read but not answered; the
+	// client's own publishes are still completed (PUBREC is answered with PUBREL)
+	NoDeliveryAck bool
 	// HoldRel: identifiers of the client's own QoS 2 publishes whose PUBREC is not answered
 	// automatically (the script sends the PUBREL later)
 	HoldRel map[uint16]bool
@@ -94,12 +97,18 @@ func (c *Client) Pump() bool {
 		}
 		switch p.Type {
 		case PUBLISH:
+			if c.NoDeliveryAck {
+				break
+			}
 			if p.QoS == 1 {
 				c.Send(EncAck(PUBACK, p.ID))
 			} else if p.QoS == 2 {
 				c.Send(EncAck(PUBREC, p.ID))
 			}
 		case PUBREL:
+			if c.NoDeliveryAck {
+				break
+			}
 			c.Send(EncAck(PUBCOMP, p.ID))
 		case PUBREC:
 			if !c.HoldRel[p.ID] {
